@@ -458,7 +458,9 @@ const MODES: [Mode; 4] = [Mode::Ints, Mode::Lines, Mode::Words, Mode::Mixed];
 pub fn stream_boundary(g: &mut Gen, rng: &mut SplitMix64, thorough: bool) {
     let b = g.buf();
     let fixed: [usize; 8] = [b.saturating_sub(2), b.saturating_sub(1), b, b + 1, b + 2, 2 * b - 1, 2 * b, 2 * b + 1];
-    let n = if thorough { 150 } else { 12 };
+    // reduced debug-profile run: 2 (quick) / 12 (thorough) cases, chosen as in the quick tier
+    let n = g.size(thorough, (12, 150), (2, 12));
+    let thorough = thorough && !g.lite();
     const QUICK_KINDS: [usize; 12] = [0, 3, 2, 1, 5, 4, 6, 8, 2, 3, 5, 6];
     for i in 0..n {
         let total = if i % 12 < 8 { fixed[i % 12] } else { b / 2 + rng.below(2 * b as u64 + 1) as usize };
@@ -482,7 +484,8 @@ pub fn stream_long(g: &mut Gen, rng: &mut SplitMix64, thorough: bool) {
         (Mode::Words, 3, true, true),
         (Mode::Mixed, 2, true, true),
     ];
-    let n = if thorough { 40 } else { 6 };
+    let n = g.size(thorough, (6, 40), (0, 2));
+    let thorough = thorough && !g.lite();
     for i in 0..n {
         let total = 3 * b + rng.below(b as u64 + 1) as usize;
         let (mode, mut kind, intr, lw) = plan[i % 8];
